@@ -4,7 +4,10 @@ K: operation sequences on a real ExchangeMap vs the state machine of coq/Model/E
    compared after every operation, cell by cell, aliasing included: Python objects are numbered by identity).
 S: the property text on the implementation: every call's result vs a FRESH ExchangeMap built from snapshot copies taken
    at construction time; bitwise snapshots of every live molecule's coordinates around every operation; labels of the
-   result; TypeError for non-molecules / other species and the map still answering afterwards."""
+   result; TypeError for non-molecules / other species and the map still answering afterwards.
+   S only: arguments with a degenerate anchor / NaN / inf coordinates (NaN-aware comparison) with the construction target
+   moved in between (seeded/C04-12); several different maps alive, the older one used after the newer ones were built,
+   expectation recorded BEFORE the other maps existed + fresh map afterwards + fresh interpreter (seeded/C04-11)."""
 import json
 
 import numpy as np
@@ -33,7 +36,12 @@ RULE = ("one case = one operation sequence on one reference/target pair: referen
         "(`mol.resids = [...]`, gro and topology numbers; 1 in 12 with a wrong length) of the construction reference / target / "
         "any handle incl. molecules sharing the reference's topology; in 25% of the pairs with a target of >= 3 atoms a reverse "
         "map ExchangeMap(tgt, ref) is alive in the same world with its own arguments (copies of the target) and is called "
-        "in between. K only: same-name "
+        "in between. S only: in 1 of 3 pairs 1..2 arguments with a degenerate anchor (an atom with >= 2 bonds coinciding "
+        "with the second, by index, of its bonded atoms) or a NaN / inf coordinate, results compared NaN-aware; rigid motion "
+        "of the whole construction target / reference between calls; and `twomaps` cases: a map is used, 1..2 OTHER maps "
+        "(another pair, same pair with another scale factor, the reverse map, the same reference with a re-aligned target) "
+        "are built and used, the first map is used again with the same arguments - expected = its own results from before "
+        "the other maps existed, a fresh map built afterwards, and (first cases) a fresh interpreter. K only: same-name "
         "species with another bond graph, reference and target sharing one topology, a deep copy with other topology "
         "residue numbers. A case is non-trivial when distinct and containing >= 2 successful calls with at least one "
         "mutation or rejected call between the first and the last of them.")
@@ -214,6 +222,40 @@ def lst(a):
     return [[float(x) for x in p] for p in np.asarray(a)]
 
 
+def neighbours(n, bonds):
+    nb = [set() for _ in range(n)]
+    for a, b in bonds:
+        nb[a].add(b)
+        nb[b].add(a)
+    return [sorted(x) for x in nb]
+
+
+def gen_degenerate(rs, ref_pos, bonds, tgt_pos):
+    """recipe (JSON, finite numbers only) that makes an argument degenerate: `collapse` = the second, by index, of the
+    bonded atoms of an anchor is put exactly on the anchor (first base vector 0/0); `nan` / `inf` = one coordinate of an
+    atom entering an anchor's frame is replaced.  Generator only: nothing here is used to judge a result."""
+    ref_pos, tgt_pos = np.asarray(ref_pos, dtype=float), np.asarray(tgt_pos, dtype=float)
+    nb = neighbours(len(ref_pos), bonds)
+    anchors = [i for i in range(len(ref_pos)) if len(nb[i]) >= 2]
+    if not anchors:
+        return {"mode": "nan", "atom": 0, "axis": int(rs.randint(3))}
+    used = sorted(set(anchors[int(np.argmin([np.linalg.norm(t - ref_pos[a]) for a in anchors]))] for t in tgt_pos))
+    a = int(rs.choice(used if rs.randint(6) else anchors))
+    mode = str(rs.choice(["collapse", "nan", "inf"], p=[0.6, 0.25, 0.15]))
+    if mode == "collapse":
+        return {"mode": "collapse", "anchor": a, "onto": int(nb[a][1])}
+    return {"mode": mode, "atom": int(rs.choice([a] + nb[a][:2])), "axis": int(rs.randint(3))}
+
+
+def apply_degenerate(pos, d):
+    pos = np.array(pos, dtype=float)
+    if d["mode"] == "collapse":
+        pos[d["onto"]] = pos[d["anchor"]]
+    else:
+        pos[d["atom"], d["axis"]] = np.nan if d["mode"] == "nan" else np.inf
+    return pos
+
+
 def gen_static(rs, uid, k_only=False):
     n_ref = int(rs.randint(3, 13))
     n_tgt = int(rs.randint(1, 21))
@@ -274,6 +316,18 @@ def gen_static(rs, uid, k_only=False):
     others = ["othername", "otheratoms", "shorter", "tgt"]
     if k_only:
         others += ["diffbonds", "deep_topresid"]
+    if not k_only and rs.randint(3) == 0:
+        # S only (K cuts a sequence at the first non-finite result, and the model stops at Err EDiv0 where numpy goes on
+        # with NaN): 1..2 arguments of the species with a DEGENERATE anchor - an atom with >= 2 bonds that coincides with
+        # the second (by index) of its bonded atoms, so that the first base vector is 0/0 - or with a NaN / inf coordinate.
+        # The anchor is taken among those some target atom is attached to (nearest anchor, computed here for the
+        # generator only), so that part of the result really is non-finite.
+        for _ in range(int(rs.randint(1, 3))):
+            withpos = [o for o in objs if "pos" in o]
+            base = np.array(withpos[int(rs.randint(len(withpos)))]["pos"], dtype=float)
+            objs.append({"kind": str(rs.choice(["copy", "deep"])), "pos": lst(base + rs.randint(-8, 9, size=3) / 4.0),
+                         "gro_resids": gen_resids(rs, nres_r) if rs.randint(4) else None,
+                         "degenerate": gen_degenerate(rs, ref_pos, bonds, tgt_pos)})
     for kind in rs.choice(others, size=int(rs.randint(1, 4)), replace=False):
         o = {"kind": str(kind), "pos": lst(walk_positions(rs, n_ref, bonds))}
         if kind == "diffbonds":
@@ -374,7 +428,8 @@ class Session:
             return a
         if k in ("copy", "deep", "deep_topresid"):
             a = self.ref.copy() if k == "copy" else self.ref.deep_copy()
-            a.atoms_positions = np.array(o["pos"], dtype=float)
+            a.atoms_positions = (np.array(o["pos"], dtype=float) if not o.get("degenerate") else
+                                 apply_degenerate(o["pos"], o["degenerate"]))
             if o.get("gro_resids"):
                 for res, v in zip(a.residues, o["gro_resids"]):
                     res.resid = int(v)
@@ -448,6 +503,10 @@ class Session:
                     else:
                         mol.resids = [int(x) for x in op["rids"]]
                     return "ok", None
+                if k in ("moveref", "movetgt"):
+                    # S only: the whole construction molecule is moved / rotated / re-aligned after the map was built
+                    (self.ref if k == "moveref" else self.tgt).atoms_positions = np.array(op["pos"], dtype=float)
+                    return "ok", None
                 mol = self.ref if k == "pokeref" else self.tgt if k == "poketgt" else self.objs[op["h"]]
                 mol[op["i"]].position = np.array(op["v"], dtype=float)
                 return "ok", None
@@ -472,6 +531,16 @@ def next_op(rs, ses, allow_ambiguous):
     other = [i for i, k in enumerate(kinds) if k not in VALID and k != "diffbonds"]
     pokeable = [i for i, k in enumerate(kinds) if k in ("copy", "deep", "result", "deep_topresid", "tcopy", "tdeep", "rresult")]
     results = [i for i, k in enumerate(kinds) if k in ("result", "rresult")]
+    if not allow_ambiguous:
+        # S only: rigid motion of a whole construction molecule ("later changes to the molecules the map was built from")
+        c2 = rs.uniform()
+        if c2 < 0.09:
+            mol = ses.tgt if c2 < 0.06 else ses.ref
+            p = np.array(mol.atoms_positions, dtype=float)
+            if np.isfinite(p).all():
+                g = p.mean(0)
+                p = (p - g) @ rotmat(rs).T + g + rs.uniform(-8, 8, size=3)
+                return {"op": "movetgt" if c2 < 0.06 else "moveref", "pos": lst(p)}
     c = rs.uniform()
     v = [float(x) for x in rs.uniform(-6, 6, size=3)]
 
@@ -728,10 +797,30 @@ def run_K_case(spec, rs, n_ops):
 
 # ------------------------------------------------------------------ S: the property text on the implementation
 TOL_FRESH = 1e-12
+TOL_REPEAT = 4e-12        # two results of the same map for the same coordinates (each within TOL_FRESH of a fresh map's)
 
 
 def coords(m):
     return np.array(m.atoms_positions, dtype=float).copy()
+
+
+def coords_dev(got, want):
+    """NaN-aware deviation of two coordinate arrays: inf when the shapes differ or the non-finite entries are not at the
+    same places (what kind of non-finite value is not compared), else the largest |got - want| / (1 + |want|) over the
+    finite entries (0 when there is none)"""
+    got, want = np.asarray(got, dtype=float), np.asarray(want, dtype=float)
+    if got.shape != want.shape:
+        return float("inf")
+    fg, fw = np.isfinite(got), np.isfinite(want)
+    if (fg != fw).any():
+        return float("inf")
+    if not fw.any():
+        return 0.0
+    return float(np.max(np.abs(got[fw] - want[fw]) / (1.0 + np.abs(want[fw]))))
+
+
+def dev_text(dev):
+    return "by %.3g" % dev if np.isfinite(dev) else "(finite where the other is NaN/inf, or the reverse)"
 
 
 def oracle_sequence(spec, gen=None):
@@ -743,6 +832,7 @@ def oracle_sequence(spec, gen=None):
     ses = Session(spec, lambda ses_: pre.extend((lab, m, coords(m)) for lab, m in ses_.live()))
     bad = []
     stats = {"calls_ok": 0, "rejected": 0, "skipped": 0, "pokes": 0, "between": False,
+             "nonfinite_calls": 0, "nonfinite_after_target_moved": 0,
              "collinear_calls": 0, "collinear_build": int(bool(ses.collinear_at_build))}
     if ses.build_exc is not None:
         return ["construction raised %r" % ses.build_exc], stats
@@ -755,6 +845,8 @@ def oracle_sequence(spec, gen=None):
     # has the topology of the map's reference been renumbered since the construction?  (then "same species" is
     # decided by a map built at that moment; before, every handle of the species must be accepted)
     dirty = {"call": False, "callrev": False}
+    target_moved = {"call": False, "callrev": False}     # evidence only: has the map's construction target been moved?
+    memo = {}                                            # (map, argument coordinates) -> (step, first result)
 
     def fresh_now(which):
         """a map built NOW from the current construction molecules (current residue numbers, gro and topology) at their
@@ -782,6 +874,7 @@ def oracle_sequence(spec, gen=None):
         kind = ses.kinds[op["h"]] if is_call else None
         arg = ses.objs[op["h"]] if is_call else None
         arg_resids = list(arg.resids) if arg is not None else None
+        arg_coords = coords(arg) if arg is not None else None
         unclassified = is_call and (kind in ("diffbonds", "deep_topresid") or spec["shared_top"])
         exp_kind, exp = None, None
         if is_call and not unclassified:
@@ -798,10 +891,20 @@ def oracle_sequence(spec, gen=None):
         status, val = ses.apply(op)
         where = "step %d %s" % (step, json.dumps(op)[:80])
         # --- purity: coordinates of every live molecule, bit for bit
-        poked = None
+        poked = moved = None
         if which.startswith("poke") and status == "ok":
             poked = ses.ref if which == "pokeref" else ses.tgt if which == "poketgt" else ses.objs[op["h"]]
-        if which.startswith("poke") or which.startswith("renum"):
+        if which.startswith("move") and status == "ok":
+            moved = ses.ref if which == "moveref" else ses.tgt
+            if which == "movetgt":
+                target_moved["call"] = True
+            else:
+                target_moved["callrev"] = True
+        if which == "poketgt":
+            target_moved["call"] = True
+        if which == "pokeref":
+            target_moved["callrev"] = True
+        if which.startswith("poke") or which.startswith("renum") or which.startswith("move"):
             stats["pokes"] += 1
             if stats["calls_ok"]:
                 event = True
@@ -810,6 +913,8 @@ def oracle_sequence(spec, gen=None):
             if m is poked:
                 c0 = c0.copy()
                 c0[op["i"]] = np.array(op["v"], dtype=float)
+            if m is moved:
+                c0 = np.array(op["pos"], dtype=float)
             if c0.shape != c1.shape or c0.tobytes() != c1.tobytes():
                 bad.append("%s: coordinates of %s changed" % (where, lab))
         # --- bookkeeping of topology renumbering (after the operation)
@@ -869,12 +974,27 @@ def oracle_sequence(spec, gen=None):
             got, want = coords(val), coords(exp)
             if got.shape != want.shape:
                 bad.append("%s: %d atoms returned, fresh map returns %d" % (where, len(got), len(want)))
-            elif not np.isfinite(want).all():
-                stats["skipped"] += 1
             else:
-                dev = np.abs(got - want) / (1.0 + np.abs(want))
-                if not (dev <= TOL_FRESH).all():
-                    bad.append("%s: result differs from a freshly built map's by %.3g" % (where, np.nanmax(dev)))
+                # NaN-aware (a degenerate anchor or a NaN/inf coordinate of the ARGUMENT gives non-finite positions for the
+                # target atoms attached to that anchor, on every call and in the fresh map alike): non-finite at the same
+                # places, finite ones equal
+                if not np.isfinite(want).all():
+                    stats["nonfinite_calls"] += 1
+                    if target_moved[which]:
+                        stats["nonfinite_after_target_moved"] += 1
+                dev = coords_dev(got, want)
+                if not dev <= TOL_FRESH:
+                    bad.append("%s: result differs from a freshly built map's %s" % (where, dev_text(dev)))
+                # the same map, an argument with the same coordinates as in an earlier call: the same molecule, whatever
+                # happened in between (earlier calls, other maps, changes of the construction molecules)
+                key = (which, arg_coords.shape, arg_coords.tobytes())
+                if key in memo:
+                    dev = coords_dev(got, memo[key][1])
+                    if not dev <= TOL_REPEAT:
+                        bad.append("%s: result differs from the one this map returned at step %d for an argument with the same "
+                                   "coordinates %s" % (where, memo[key][0], dev_text(dev)))
+                else:
+                    memo[key] = (step, got)
             if [a.name for a in val] != labels[which][0]:
                 bad.append("%s: atom names/order are not the target's" % where)
             if [a.resname for a in val] != labels[which][1]:
@@ -1003,6 +1123,250 @@ def dimer_witness():
                     {"op": "call", "h": 0}]}
 
 
+def degenerate_witness():
+    """seeded/C04-12 (S only; K cuts a sequence at the first non-finite result): an ordinary argument and arguments with a
+    degenerate anchor - bead 2 has the bonded beads 1 and 3 and bead 3 sits exactly on it, so the first base vector of its
+    frame is 0/0; another argument carries one NaN coordinate - mapped before and after the construction target is moved
+    (+7 nm), rotated, and one of its atoms displaced.  The target atoms attached to the degenerate anchor are NaN on every
+    call; a fallback to the coordinates of the live construction target made them follow it."""
+    rs = np.random.RandomState(12)
+    bonds = [[0, 1], [1, 2], [2, 3], [1, 4]]
+    ref_pos = walk_positions(rs, 5, bonds)
+    tgt_pos = ref_pos[[0, 1, 1, 2, 3, 4, 2, 3]] + rs.normal(scale=0.05, size=(8, 3))
+    g = tgt_pos.mean(0)
+    th = 1.0
+    rot = np.array([[np.cos(th), -np.sin(th), 0], [np.sin(th), np.cos(th), 0], [0, 0, 1]])
+    moved1 = tgt_pos + np.array([7.0, 0.0, 0.0])
+    moved2 = (moved1 - g) @ rot.T + g
+    return {"uid": 980, "graph_kind": "corpus", "geometry": "degenerate_argument", "reverse": False, "shared_top": False,
+            "scale": 0.5,
+            "ref": {"name": "DGC", "atoms": [["G%d" % k, "DGC", 1] for k in range(5)], "bonds": bonds, "pos": lst(ref_pos),
+                    "resid_offset": 0},
+            "tgt": {"name": "DGA", "atoms": [["A%d" % k, "DGA", 1] for k in range(8)], "bonds": chain(8), "pos": lst(tgt_pos),
+                    "resid_offset": 0, "vel": None},
+            "objs": [{"kind": "copy", "pos": lst(ref_pos + np.array([1.0, -2.0, 0.5])), "gro_resids": [3]},
+                     {"kind": "copy", "pos": lst(ref_pos + np.array([0.3, 0.2, -0.1])), "gro_resids": [4],
+                      "degenerate": {"mode": "collapse", "anchor": 2, "onto": 3}},
+                     {"kind": "deep", "pos": lst(ref_pos @ rot.T - 1.5), "gro_resids": [5],
+                      "degenerate": {"mode": "nan", "atom": 1, "axis": 2}},
+                     {"kind": "deep", "pos": lst(ref_pos + 2.25), "gro_resids": [6],
+                      "degenerate": {"mode": "inf", "atom": 3, "axis": 0}}],
+            "ops": [{"op": "call", "h": 0}, {"op": "call", "h": 1}, {"op": "call", "h": 2}, {"op": "call", "h": 3},
+                    {"op": "movetgt", "pos": lst(moved1)}, {"op": "call", "h": 0}, {"op": "call", "h": 1},
+                    {"op": "movetgt", "pos": lst(moved2)}, {"op": "call", "h": 1}, {"op": "call", "h": 2},
+                    {"op": "poketgt", "i": 4, "v": [1.0, 2.0, 3.0]}, {"op": "poketgt", "i": 7, "v": [-3.0, 0.5, 2.0]},
+                    {"op": "call", "h": 3}, {"op": "call", "h": 1}, {"op": "moveref", "pos": lst(ref_pos @ rot.T + 4.0)},
+                    {"op": "call", "h": 0}, {"op": "call", "h": 2}, {"op": "call", "h": 1}]}
+
+
+def s_only_corpus_specs():
+    """witnesses for the S oracle only (non-finite results / whole-molecule moves are not in K's alphabet)"""
+    return [degenerate_witness()]
+
+
+# ------------------------------------------------------------------ S: several maps alive in one process
+def valid_handles(ses):
+    """handles of the reference's species with the target's number of residues (the domain of the property)"""
+    n = len(ses.tgt.residues)
+    return [i for i in range(ses.n_static) if ses.kinds[i] in ("copy", "deep", "ref") and len(ses.objs[i].residues) == n]
+
+
+def map_all(m, ses, handles):
+    out = []
+    for h in handles:
+        with np.errstate(all="ignore"):
+            try:
+                r = m(ses.objs[h])
+                out.append(("ok", coords(r), [a.name for a in r], [a.resname for a in r], list(r.resids)))
+            except Exception as e:  # noqa
+                out.append(("exc", type(e).__name__))
+    return out
+
+
+def outcome_diff(a, b, tol):
+    """None when the two outcomes of one call agree (NaN-aware), else a text"""
+    if a[0] != b[0]:
+        return "%s vs %s" % (a[0] if a[0] == "ok" else a[1], b[0] if b[0] == "ok" else b[1])
+    if a[0] == "exc":
+        return None if a[1] == b[1] else "%s vs %s" % (a[1], b[1])
+    dev = coords_dev(a[1], b[1])
+    if not dev <= tol:
+        return "coordinates differ " + dev_text(dev)
+    if a[2:] != b[2:]:
+        return "atom names / residue names / residue numbers differ"
+    return None
+
+
+def gen_twomaps(rs, uid):
+    a = gen_static(rs, uid, k_only=False)
+    second = []
+    for _ in range(int(rs.randint(1, 3))):
+        how = str(rs.choice(["pair", "scale", "reverse", "moved_target"], p=[0.5, 0.2, 0.15, 0.15]))
+        if how == "reverse" and len(a["tgt"]["atoms"]) < 3:
+            how = "pair"
+        if how == "pair":
+            second.append({"how": "pair", "spec": gen_static(rs, uid + 500, k_only=False)})
+        elif how == "scale":
+            s2 = float(rs.uniform(0.05, 2.0))
+            second.append({"how": "scale", "scale": s2 if abs(s2 - a["scale"]) > 0.01 else s2 + 0.25})
+        elif how == "moved_target":
+            p = np.array(a["tgt"]["pos"], dtype=float)
+            second.append({"how": "moved_target", "pos": lst((p - p.mean(0)) @ rotmat(rs).T + p.mean(0) +
+                                                             rs.normal(scale=0.1, size=3))})
+        else:
+            second.append({"how": "reverse"})
+    return {"uid": uid, "A": a, "second": second, "subprocess": False}
+
+
+def twomaps_witness():
+    """seeded/C04-11 (`_target_coordinates` one dictionary for the whole class): a map of one pair is used, then a map of
+    an UNRELATED pair and a map of the same pair with another scale factor are built (Manager builds one map per species
+    before using any), then the first map is used again with the same arguments."""
+    a = renumber_witnesses()[0]
+    rs = np.random.RandomState(11)
+    p = np.array(a["ref"]["pos"], dtype=float)
+    a.update(uid=990, scale=0.5, ops=[],
+             objs=[{"kind": str(k), "pos": lst((p - p.mean(0)) @ rotmat(rs).T + rs.uniform(-3, 3, size=3)), "gro_resids": [21 + j]}
+                   for j, k in enumerate(["copy", "deep", "copy", "copy"])])
+    b = rod_witness()
+    b["ops"] = []
+    return {"uid": 990, "A": a, "second": [{"how": "pair", "spec": b}, {"how": "scale", "scale": 1.0}], "subprocess": True}
+
+
+CHILD = ("import sys, json; sys.path.insert(0, %r); import lib; lib.setup_impl_path(); import c04; "
+         "c04.child_main()")
+
+
+def child_main():
+    """runs in a FRESH interpreter: builds the pair of the spec read from stdin - the first ExchangeMap of that process -
+    and maps its arguments; floats are printed in hexadecimal"""
+    import sys
+    spec = json.loads(sys.stdin.read())
+    ses = Session(spec)
+    if ses.build_exc is not None:
+        print(json.dumps({"build_exc": type(ses.build_exc).__name__}))
+        return
+    out = []
+    for o in map_all(ses.map, ses, valid_handles(ses)):
+        out.append(list(o) if o[0] == "exc" else ["ok", [[float(x).hex() for x in p] for p in o[1]], o[2], o[3], o[4]])
+    print(json.dumps({"results": out}))
+
+
+def in_fresh_process(spec_a):
+    """outcomes of map(arg) for every valid handle of the pair, computed in a separate fresh interpreter on the tree under
+    test; None when the child could not be run (never an alarm by itself)"""
+    import os
+    import subprocess
+    import sys
+    for _ in range(2):
+        try:
+            r = subprocess.run([sys.executable, "-c", CHILD % os.path.dirname(os.path.abspath(__file__))],
+                               input=json.dumps(spec_a), capture_output=True, text=True, timeout=120)
+        except Exception:  # noqa
+            continue
+        if r.returncode == 0:
+            try:
+                d = json.loads(r.stdout.strip().splitlines()[-1])
+            except Exception:  # noqa
+                continue
+            if "results" not in d:
+                return None
+            return [tuple(o) if o[0] == "exc" else
+                    ("ok", np.array([[float.fromhex(x) for x in p] for p in o[1]], dtype=float).reshape(-1, 3), o[2], o[3], o[4])
+                    for o in d["results"]]
+    return None
+
+
+def oracle_twomaps(spec):
+    """Other maps alive in the process.  The expected molecules are the ones the first map returned BEFORE any other map
+    was built (and, at the end, those of a map freshly built from the construction-time snapshots and of a fresh
+    interpreter); the same arguments must give the same molecules after other, different maps were built and used."""
+    from gaddlemaps import ExchangeMap
+    sa = json.loads(json.dumps(spec["A"]))
+    sa["ops"] = []
+    A = Session(sa)
+    stats = {"args": 0, "second_maps": 0, "compared": 0, "subprocess": 0, "nonfinite": 0}
+    if A.build_exc is not None:
+        return ["construction raised %r" % A.build_exc], stats
+    bad = []
+    hA = valid_handles(A)
+    stats["args"] = len(hA)
+    before = map_all(A.map, A, hA)
+    stats["nonfinite"] = sum(1 for o in before if o[0] == "ok" and not np.isfinite(o[1]).all())
+    alive, pairs = [], []
+    for b in spec["second"]:
+        how = b["how"]
+        with np.errstate(all="ignore"):
+            try:
+                if how == "pair":
+                    sb = json.loads(json.dumps(b["spec"]))
+                    sb["ops"] = []
+                    B = Session(sb)
+                    if B.build_exc is not None:
+                        continue
+                    hB = valid_handles(B)
+                    pairs.append((B, hB, map_all(B.map, B, hB)))
+                    alive.append(B.map)
+                elif how == "scale":
+                    alive.append(ExchangeMap(A.ref, A.tgt, b["scale"]))
+                elif how == "reverse":
+                    alive.append(ExchangeMap(A.tgt, A.ref, sa["scale"]))
+                else:
+                    t2 = A.tgt.copy()
+                    t2.atoms_positions = np.array(b["pos"], dtype=float)
+                    alive.append(ExchangeMap(A.ref, t2, sa["scale"]))
+                    alive.append(t2)
+                stats["second_maps"] += 1
+            except Exception as e:  # noqa
+                bad.append("building a second map (%s) raised %r" % (how, e))
+        if how != "pair":
+            with np.errstate(all="ignore"):
+                m2 = [m for m in alive if isinstance(m, ExchangeMap)][-1]
+                if how != "reverse":
+                    map_all(m2, A, hA[:2])                    # the other map is used as well
+    desc = "+".join(b["how"] for b in spec["second"])
+
+    def compare(now, ref, what, tol):
+        for h, x, y in zip(hA, now, ref):
+            d = outcome_diff(x, y, tol)
+            stats["compared"] += 1
+            if d:
+                bad.append("handle %d: %s: %s" % (h, what, d))
+                return
+    after = map_all(A.map, A, hA)
+    compare(after, before, "the map returns another molecule for the same argument after other maps (%s) were built than "
+            "it returned before they existed" % desc, TOL_REPEAT)
+    for B, hB, beforeB in pairs:
+        afterB = map_all(B.map, B, hB)
+        for h, x, y in zip(hB, afterB, beforeB):
+            d = outcome_diff(x, y, TOL_REPEAT)
+            if d:
+                bad.append("second map, handle %d: another molecule for the same argument after the first map was used "
+                           "again: %s" % (h, d))
+                break
+    again = map_all(A.map, A, hA)
+    compare(again, before, "the map returns another molecule for the same argument after the other maps (%s) were used" % desc,
+            TOL_REPEAT)
+    # a map freshly built from the construction-time snapshots, built AFTER all the calls above (so it cannot repair
+    # anything for them), applied to copies of the arguments
+    with np.errstate(all="ignore"):
+        fresh = ExchangeMap(A.ref0.deep_copy(), A.tgt0.deep_copy(), sa["scale"])
+
+        class _F:       # the handles' deep copies under the session interface of map_all
+            objs = {h: A.objs[h].deep_copy() for h in hA}
+        exp = map_all(fresh, _F, hA)
+    compare(before, exp, "result (before any other map existed) differs from a freshly built map's", TOL_FRESH)
+    compare(again, exp, "result (other maps %s alive) differs from a freshly built map's" % desc, TOL_FRESH)
+    if spec.get("subprocess"):
+        sub = in_fresh_process(sa)
+        if sub is not None and len(sub) == len(before):
+            stats["subprocess"] = 1
+            compare(before, sub, "result differs from the one of the same pair's map built in a fresh interpreter", TOL_FRESH)
+            compare(again, sub, "result (other maps %s alive) differs from the one of the same pair's map built in a fresh "
+                    "interpreter" % desc, TOL_FRESH)
+    return bad, stats
+
+
 def nontrivial(stats):
     return stats["calls_ok"] >= 2 and stats["between"]
 
@@ -1017,6 +1381,21 @@ def corpus(ctx):
         if bad:
             ctx.violation("exchange map call sequence: " + "; ".join(bad[:4]), {"kind": "sequence", "spec": spec},
                           key="sequence")
+    for spec in s_only_corpus_specs():
+        bad, stats = oracle_sequence(json.loads(json.dumps(spec)))
+        S["corpus"] += 1
+        S["corpus_calls_with_nonfinite_result_after_target_moved"] = stats["nonfinite_after_target_moved"]
+        ctx.count(("corpus", spec["uid"]), nontrivial(stats) and stats["nonfinite_after_target_moved"] > 0)
+        if bad:
+            ctx.violation("exchange map call sequence: " + "; ".join(bad[:4]), {"kind": "sequence", "spec": spec},
+                          key="sequence")
+    spec = twomaps_witness()
+    bad, stats = oracle_twomaps(spec)
+    S["corpus"] += 1
+    S["corpus_twomaps_compared_with_fresh_interpreter"] = stats["subprocess"]
+    ctx.count(("corpus", spec["uid"]), stats["args"] > 0 and stats["second_maps"] > 0)
+    if bad:
+        ctx.violation("several exchange maps alive: " + "; ".join(bad[:4]), {"kind": "twomaps", "spec": spec}, key="twomaps")
 
 
 def run_cases_robust(ctx, cases, shard):
@@ -1117,7 +1496,8 @@ def oracle(ctx, scale):
     S = ctx.cov["S"]
     n = ctx.n(150, 1500) * scale
     fails = 0
-    tot = {"calls_ok": 0, "rejected": 0, "skipped": 0, "pokes": 0, "collinear_calls": 0, "collinear_build": 0}
+    tot = {"calls_ok": 0, "rejected": 0, "skipped": 0, "pokes": 0, "collinear_calls": 0, "collinear_build": 0,
+           "nonfinite_calls": 0, "nonfinite_after_target_moved": 0}
     hist = {}
     for k in range(n):
         spec = gen_static(rs, 1000 + k, k_only=False)
@@ -1154,12 +1534,44 @@ def oracle(ctx, scale):
     S["calls_on_argument_with_collinear_anchor"] = S.get("calls_on_argument_with_collinear_anchor", 0) + tot["collinear_calls"]
     S["maps_built_on_reference_with_collinear_anchor"] = (S.get("maps_built_on_reference_with_collinear_anchor", 0) +
                                                           tot["collinear_build"])
+    S["calls_with_nonfinite_result_nan_aware"] = S.get("calls_with_nonfinite_result_nan_aware", 0) + tot["nonfinite_calls"]
+    S["calls_with_nonfinite_result_after_target_moved"] = (S.get("calls_with_nonfinite_result_after_target_moved", 0) +
+                                                           tot["nonfinite_after_target_moved"])
     S["input_distribution"] = hist
     S["failures"] = S.get("failures", 0) + fails
+    # ---- several different maps alive in the process, the older one used after the newer ones were built
+    rs2 = ctx.np_rng("T%d" % scale)
+    n2 = ctx.n(40, 400) * scale
+    t = {"args": 0, "second_maps": 0, "compared": 0, "subprocess": 0, "nonfinite": 0}
+    fails2 = 0
+    for k in range(n2):
+        spec = gen_twomaps(rs2, 3000 + k)
+        spec["subprocess"] = k < ctx.n(2, 10)
+        bad, stats = oracle_twomaps(spec)
+        for key in t:
+            t[key] += stats[key]
+        for b in spec["second"]:
+            hist_add(hist, "second_map_" + b["how"])
+        ctx.count(("T", scale, k), stats["args"] > 0 and stats["second_maps"] > 0)
+        if bad:
+            fails2 += 1
+            ctx.violation("several exchange maps alive: " + "; ".join(bad[:4]), {"kind": "twomaps", "spec": spec},
+                          key="twomaps")
+            if fails2 >= 5:
+                break
+    S["twomaps_cases_x%d" % scale] = n2
+    S["twomaps_second_maps_built"] = S.get("twomaps_second_maps_built", 0) + t["second_maps"]
+    S["twomaps_outcomes_compared"] = S.get("twomaps_outcomes_compared", 0) + t["compared"]
+    S["twomaps_compared_with_fresh_interpreter"] = S.get("twomaps_compared_with_fresh_interpreter", 0) + t["subprocess"]
+    S["failures"] += fails2
 
 
 def replay(ctx, obj):
     r = obj["replay"]
+    if r.get("kind") == "twomaps":
+        bad, stats = oracle_twomaps(json.loads(json.dumps(r["spec"])))
+        print(bad, stats)
+        return not bad
     if r.get("kind") != "sequence":
         print("replay names a proof/correspondence, not an input:", json.dumps(r)[:300])
         return False
@@ -1184,7 +1596,11 @@ def finish(ctx):
         "theorems hold for every geometric core with the two key laws (frames_keys, project_keys); the concrete core "
         "(calcule_base frames, references of >= 3 atoms) is executed in K only; its geometry is the subject of C01-C03/C17",
         "IEEE rounding is modelled, not verified: K compares map-produced coordinates within 2^-30 relative, everything "
-        "else exactly; S compares with a fresh map within 1e-12 relative",
+        "else exactly; S compares with a fresh map within 1e-12 relative, non-finite coordinates (degenerate anchor or "
+        "NaN/inf in the ARGUMENT) must be non-finite at the same places; such histories are S only (the model stops at "
+        "Err EDiv0, K cuts the sequence at ONonFinite)",
+        "several different maps alive in one process are checked in S only (twomaps cases, and the forward/reverse pairs); "
+        "the model has one `_target_coordinates` per map by construction",
         "the model's allocation order of the fresh gro cells (residue by residue) is a convention shared with the harness's "
         "numbering of Python objects by identity",
     ]
